@@ -41,7 +41,12 @@ _CQS_FLUENT = ("class QueryBuilder {\n  where(clause) {\n    const parsed = pars
                "function fetchAndStore(db, key) {\n  const value = db.get(key);\n  db.save(key, value);\n  return value;\n}\n")
 _CQS_FLUENT_PY = ("class QueryBuilder:\n    def where(self, clause):\n        parsed = parse_clause(clause)\n        self.clauses.append(parsed)\n        return self\n\n"
                   "def fetch_and_store(db, key):\n    value = db.get(key)\n    db.save(key, value)\n    return value\n")
+_TS_CONSTS = ("const TIMEOUT_MS = 30000;\nconst PI_APPROX = 3.14159;\nconst LIMITS = { MAX: 512, MIN: 16 };\n\n"
+              "export function wait(q: number): number {\n  return q * 250;\n}\n")
+_TS_DUP_CONST = "export const MAX_RETRY_COUNT = 17;\nexport function first() { return 1; }\n"
 AT_LIMIT = {
+    "magic-consts.ts": ("typescript", _TS_CONSTS, None),
+    "magic-consts.js": ("javascript", _TS_CONSTS.replace(": number", ""), None),
     "cqs-fluent.ts": ("typescript", _CQS_FLUENT, None),
     "cqs-fluent.py": ("python", _CQS_FLUENT_PY, None),
     "unwrap-with-tests.rs": ("rust", _RS_TESTS, None),
@@ -109,12 +114,14 @@ def _keys(vs, name, shift=None, with_column=True):
 
 
 def h_edits(ctx):
-    names = tuple(n for n in triggers.T if n not in SKIP) + ("dup", "strg") + tuple(AT_LIMIT)
+    names = tuple(n for n in triggers.T if n not in SKIP) + ("dup", "strg", "dupconst-ts") + tuple(AT_LIMIT)
     tname = ctx.pick("trigger", names)
     config = None
     if tname in AT_LIMIT:
         lang, text, config = AT_LIMIT[tname]
         files, main = {tname: text}, tname
+    elif tname == "dupconst-ts":
+        files, main, lang = {"retry_a.ts": _TS_DUP_CONST, "retry_b.ts": _TS_DUP_CONST.replace("first", "second")}, "retry_a.ts", "typescript"
     elif tname == "dup":
         files, main, lang = dict(triggers.DUP_FILES), "dup1.py", "python"
     elif tname == "strg":
@@ -126,12 +133,12 @@ def h_edits(ctx):
     lines = text.rstrip("\n").split("\n")
     n = len(lines)
     cm = "#" if lang == "python" else "//"
-    edit = ctx.pick("edit", ("insert-blank", "insert-indented-blank", "insert-comment", "trailing-whitespace", "reindent-x2", "crlf", "bom",
+    edit = ctx.pick("edit", ("insert-blank", "insert-indented-blank", "insert-comment", "insert-non-ascii-comment", "trailing-whitespace", "reindent-x2", "crlf", "bom",
                              "append-code", "two-edits", "rename-locals"))
     base = _lint(files, config)
     shift, with_col = None, True
     new = None
-    if edit in ("insert-blank", "insert-indented-blank", "insert-comment", "two-edits"):
+    if edit in ("insert-blank", "insert-indented-blank", "insert-comment", "insert-non-ascii-comment", "two-edits"):
         q = ctx.pick("insert_before_line", tuple(range(1, n + 2)))
         if tname == "dup" and 2 < q <= n:
             ctx.assume(False)      # a line inserted inside a reported duplicate block changes the block itself
@@ -139,6 +146,8 @@ def h_edits(ctx):
         nxt = lines[q - 1] if q <= n else ""
         ind = re.match(r"\s*", nxt).group(0)
         ins = "" if edit == "insert-blank" else (ind + "  " if edit == "insert-indented-blank" else ind + cm + " an unrelated remark")
+        if edit == "insert-non-ascii-comment":      # multi-byte text: byte offsets and character offsets part ways below it
+            ins = ind + cm + " \u0e04\u0e48\u0e32\u0e04\u0e07\u0e17\u0e35\u0e48\u0e2a\u0e33\u0e2b\u0e23\u0e31\u0e1a\u0e01\u0e32\u0e23\u0e25\u0e2d\u0e07\u0e43\u0e2b\u0e21\u0e48 \u5e38\u91cf\u5b9a\u7fa9 \u043a\u043e\u043d\u0441\u0442\u0430\u043d\u0442\u044b"
         new_lines = lines[:q - 1] + [ins] + lines[q - 1:]
         delta = 1
         if edit == "two-edits":
